@@ -60,8 +60,9 @@ def _conv(ck, an, short, rule, spec, result_cls, what):
              witness=[f"got      {val.key()}", f"expected {expected.key()}"])
     ck.check(key == catom, "ARGFLOW", rule + "-key", subj, fa.loc(s), "the result is stored under the same contract", f"the result is stored under {key}", construct=stmt_text(s))
     rets = returns_in(fa)
-    ok = len(rets) == 1 and isinstance(rets[0].value, ast.Call) and fa.sym.canon(rets[0].value.func) == result_cls and len(rets[0].value.args) == 1 \
-        and fa.sym.canon(rets[0].value.args[0]) == container.split("@")[0] or (len(rets) == 1 and isinstance(rets[0].value, ast.Call) and ast.unparse(rets[0].value.func) == result_cls and ast.unparse(rets[0].value.args[0]) == ast.unparse(s.targets[0].value))
+    rv0, rat = deref(fa, rets[0].value) if len(rets) == 1 else (None, None)
+    ok = rv0 is not None and isinstance(rv0, ast.Call) and fa.sym.canon(rv0.func, rat) == result_cls and len(rv0.args) == 1 and not rv0.keywords \
+        and fa.sym.canon(rv0.args[0], rat) == fa.sym.canon(s.targets[0].value, fa.node_of(s).id)
     ck.check(ok, "ARGFLOW", rule + "-returned", subj, fa.f.loc, f"the mapping built is returned as {result_cls}", f"returns {[ast.unparse(r.value) for r in rets]}", construct=f"return {result_cls}(...)")
     # NLV measured once, with the raising default
     nl = fa.calls_to("Broker.net_liquidation_value")
